@@ -35,7 +35,7 @@ MANIFEST = {
                   "are outside the documented use and only covered by the correspondence.",
 }
 
-HANDLED = ("O", "H", "D")   # case kinds the model driver recomputes
+HANDLED = ("O", "H", "D", "G", "B")   # case kinds the model driver recomputes
 
 
 def build(ctx):
